@@ -236,6 +236,13 @@ func (r *crun) apply(op harness.Op, idx int) {
 		}
 		c.CrashAtStoreCall(n, int(op.A), op.B == 1)
 		r.fault("crash.armed_in_store_call", c.Q.Now+10*time.Second)
+	case "crashcommit":
+		n := r.node(op.N)
+		if !n.Alive {
+			return
+		}
+		c.CrashAtCommit(n, int(op.A))
+		r.fault("crash.armed_before_commit", c.Q.Now+10*time.Second)
 	case "skew":
 		n := r.node(op.N)
 		n.Skew = time.Duration(op.A) * time.Millisecond
